@@ -20,6 +20,7 @@ type Variant struct {
 	ID     string   `json:"id"`
 	Prop   string   `json:"prop"`
 	Edits  []string `json:"edits"`
+	Patch  []string `json:"patch,omitempty"` // unified diffs (relative to /verif) applied to the overlay
 	Expect string   `json:"expect"` // obligation id that must report, or "none" for neutral variants
 	Note   string   `json:"note,omitempty"`
 }
@@ -79,6 +80,9 @@ func runSelftest(args []string) int {
 			a := []string{"check", v.Prop, "--no-emit", "--repo", repo}
 			for _, e := range v.Edits {
 				a = append(a, "--edit", e)
+			}
+			for _, e := range v.Patch {
+				a = append(a, "--patch", e)
 			}
 			cmd := exec.Command(exe, a...)
 			cmd.Env = append(os.Environ(), "GOMAXPROCS=4")
@@ -205,6 +209,9 @@ func thoroughSelftest(prop, repo string, r *Report) {
 			a := []string{"check", v.Prop, "--no-emit", "--tier", "quick", "--repo", repo}
 			for _, e := range v.Edits {
 				a = append(a, "--edit", e)
+			}
+			for _, e := range v.Patch {
+				a = append(a, "--patch", e)
 			}
 			cmd := exec.Command(exe, a...)
 			cmd.Env = append(os.Environ(), "GOMAXPROCS=4", "VERIF_TIER=quick")
